@@ -69,14 +69,17 @@ func runConcChecks(c *explore.Ctx, id string, drivers []concParams, bound int, p
 	// statement granularity inside package leveldb: a third variant of the drivers that ask for
 	// it (unsynchronised accesses - a read after an unlock, a scratch buffer shared by two callers -
 	// are invisible to scheduling at synchronisation operations)
-	for i := 0; i < n; i++ {
-		d := drivers[i]
+	for i := 0; i < 2*n; i++ {
+		d := drivers[i] // the drivers and their @rev twins: both base schedules
 		sb := d.SQ
 		if c.Tier == "thorough" {
 			sb = d.ST
 		}
 		if sb <= 0 {
 			continue
+		}
+		if d.Rev && sb > 1 {
+			sb--
 		}
 		d.Name += "@stmt"
 		d.Stmt = true
